@@ -717,10 +717,11 @@ def _agg_plan_adapter(fn):
 
 
 QUICK = {'fed_avg': 128, 'fed_prox': 128, 'mime': 128, 'mime_lite': 128,
-         'agnostic': 128, 'hyp_cluster': 128, 'apfl': 160}
+         'agnostic': 128, 'hyp_cluster': 128, 'apfl': 144}
 # relative shares of the per-shard soft time cap, proportional to measured cost
-SHARE = {'fed_avg': 1.0, 'fed_prox': 1.0, 'mime': 1.5, 'mime_lite': 1.5,
-         'agnostic': 2.0, 'hyp_cluster': 2.5, 'apfl': 2.0}
+# (fed_avg runs first and also pays for the first-use warm-up of jax)
+SHARE = {'fed_avg': 1.5, 'fed_prox': 1.0, 'mime': 1.5, 'mime_lite': 1.5,
+         'agnostic': 2.0, 'hyp_cluster': 2.5, 'apfl': 3.0}
 DOC = ('generated histories of apply / branch / roundtrip for %s: duplicate '
        'call bit-equal, argument state and client keys unchanged and readable, '
        'restored copy gives bit-equal successors, every held state keeps its '
